@@ -19,6 +19,13 @@ import BGV
 #print axioms BGV.C03_add_present_keeps_label
 #print axioms BGV.C03_recreate_shows_new_label
 
+-- C06
+#print axioms BGV.C06_eq_iff_same_graph
+#print axioms BGV.C06_refl
+#print axioms BGV.C06_symm
+#print axioms BGV.C06_history_independent
+#print axioms BGV.C06_distinguishes
+
 -- C07
 #print axioms BGV.C07_dAddEdge
 #print axioms BGV.C07_dAddReciprocalEdge
